@@ -230,6 +230,7 @@ def execute(plan: dict, ch: Chooser) -> dict:
         cache = CharacteristicCacheMemory()
         ctls: dict = {}
         disc.REQUEST_DELAY[0] = 0.0
+        disc.reset_observation()
         pre = plan.get("prestart")
         if pre:
             disc.REQUEST_DELAY[0] = pre["delay"]
@@ -238,7 +239,7 @@ def execute(plan: dict, ch: Chooser) -> dict:
             ctx.probe("controller_started_on_incomplete_cache")
 
             def early_deliver(adv):
-                rec = {"t": loop.time(), "adv": adv, "raised": None}
+                rec = {"t": loop.time(), "adv": adv, "raised": None, "seq": disc.next_seq()}
                 adverts.append(rec)
                 ctx.event("advert", adv["net"], adv["id"], adv["valid"], "during-start")
                 ctx.probe("advert_during_controller_start")
@@ -292,7 +293,7 @@ def execute(plan: dict, ch: Chooser) -> dict:
         ble_seen: dict = {}
 
         def deliver(adv: dict):
-            rec = {"t": loop.time(), "adv": adv, "raised": None}
+            rec = {"t": loop.time(), "adv": adv, "raised": None, "seq": disc.next_seq()}
             if adv.get("net") == "ble":
                 last_ble_t[adv.get("id")] = len(adverts) + len(bumps)
             adverts.append(rec)
@@ -367,8 +368,9 @@ def execute(plan: dict, ch: Chooser) -> dict:
                 if op["net"] == "ble":
                     return
                 try:
+                    sq = disc.next_seq()
                     mdns.goodbye(HAP[op["net"]], op["name"])
-                    adverts.append({"t": loop.time(), "adv": {"net": op["net"], "name": op["name"], "goodbye": True, "valid": False, "id": None}, "raised": None})
+                    adverts.append({"t": loop.time(), "adv": {"net": op["net"], "name": op["name"], "goodbye": True, "valid": False, "id": None}, "raised": None, "seq": sq})
                 except Exception as e:  # noqa: BLE001
                     ctx.violate("callback-raises", f"{op['net']}/goodbye/{type(e).__name__}", f"goodbye raised {e!r}")
 
@@ -387,6 +389,7 @@ def execute(plan: dict, ch: Chooser) -> dict:
         from aiohomekit.exceptions import AccessoryNotFoundError  # noqa: F401
 
         TOL = 1e-6
+        t_end = loop.time()
         # processing instants per net
         proc: list[dict] = []  # {"t": processing time, "id": device id or None, "valid": bool, "net":..., "adv":...}
         for n in nets:
@@ -395,32 +398,31 @@ def execute(plan: dict, ch: Chooser) -> dict:
                     if a["adv"]["net"] == "ble":
                         proc.append({"t": a["t"], "net": "ble", "adv": a["adv"], "valid": a["adv"]["valid"], "id": a["adv"]["id"]})
             else:
-                # resolve-later coalescing per service name: a timer armed by the first callback fires 0.5 s later and
-                # loads whatever the cache holds then; goodbye cancels the pending timer
+                # OBSERVED processing: the library processes a service when it reads it COMPLETE out of the cache
+                # (AsyncServiceInfo.load_from_cache returning True, recorded at the seam).  What it saw then is the last
+                # announcement of that name before the read, in the exact order of the run (sequence numbers, so no ties).
+                # Nothing here assumes when or how the library gets there (per-service timers, a batch task, at once ...).
                 by_name: dict[str, list] = {}
                 for a in adverts:
                     if a["adv"]["net"] == n:
-                        by_name.setdefault(a["adv"]["name"], []).append(a)
-                for name, lst in by_name.items():
-                    pending = None
-                    for a in lst:
-                        if pending is not None and a["t"] >= pending - TOL:
-                            if a["t"] <= pending + TOL:
-                                pending = ("tie", pending if not isinstance(pending, tuple) else pending[1])
-                            else:
-                                proc.append(_fire(n, name, pending, lst))
-                                pending = None
-                        if isinstance(pending, tuple):
-                            proc.append({"t": pending[1], "net": n, "ambiguous": True, "id": None, "valid": False, "adv": None})
-                            pending = None
-                        if a["adv"].get("goodbye"):
-                            pending = None
-                        elif pending is None:
-                            pending = a["t"] + 0.5
-                    if isinstance(pending, tuple):
-                        proc.append({"t": pending[1], "net": n, "ambiguous": True, "id": None, "valid": False, "adv": None})
-                    elif pending is not None:
-                        proc.append(_fire(n, name, pending, lst))
+                        by_name.setdefault(a["adv"]["name"] + "." + HAP[n], []).append(a)
+                for ld in disc.LOADS:
+                    if ld["type"] == HAP[n] and ld["ok"] and ld["t"] is not None:
+                        proc.append(_fire(n, ld["name"], ld["seq"], ld["t"], by_name.get(ld["name"], [])))
+                # ... and it has to get there: an announcement that stays the latest of its name for GRACE seconds has been read
+                # (complete adverts: processed; this is the only timing assumption, far above the library's 0.5 s debounce)
+                GRACE = 2.0
+                for full, lst in by_name.items():
+                    for k, a in enumerate(lst):
+                        if a["adv"].get("goodbye") or a["adv"]["valid"] is not True:
+                            continue
+                        t_next = lst[k + 1]["t"] if k + 1 < len(lst) else None
+                        if (t_next is not None and t_next < a["t"] + GRACE) or a["t"] + GRACE > t_end:
+                            continue
+                        ctx.obligations += 1
+                        if not any(ld["name"] == full and ld["ok"] and ld["seq"] > a["seq"] and ld["t"] <= a["t"] + GRACE + TOL for ld in disc.LOADS):
+                            ctx.violate("valid-advert-never-processed", n, f"{n}: valid announcement of {full} at t={a['t']:.3f} stayed current for {GRACE} s but the library "
+                                                                         f"never read the complete service out of the cache")
         proc.sort(key=lambda p: p["t"])
         ambiguous = any(p.get("ambiguous") for p in proc)
         ctx.probe("processed_adverts", len(proc))
@@ -515,11 +517,11 @@ def execute(plan: dict, ch: Chooser) -> dict:
                 if dev not in last and dev not in unknown_ids and dev in c.discoveries and not any(p["net"] == n and (p.get("ambiguous") or p["valid"] is None) for p in proc):
                     ctx.violate("malformed-advert-accepted", n, f"{n}: only malformed adverts were processed for {dev} but a discovery exists: {c.discoveries[dev].description}")
 
-    def _fire(n, name, t_fire, lst):
-        # content = last announce for that name at or before the firing time (goodbye => nothing cached => invalid)
+    def _fire(n, name, seq_read, t_fire, lst):
+        # content = last announce for that name before the cache read (goodbye => nothing cached => invalid)
         cur = None
         for a in lst:
-            if a["t"] <= t_fire + 1e-9:
+            if a["seq"] < seq_read:
                 cur = a
         adv = cur["adv"] if cur else None
         if adv is None or adv.get("goodbye"):
